@@ -488,13 +488,17 @@ func (l *linkedBuffer) readNextSlice() {
 
 func (l *linkedBuffer) alloc(size uint32) {
 	remain := int64(size)
-	buf, err := l.bufferManager.allocShmBuffer(size)
-	if err == nil {
-		l.sliceList.pushBack(buf)
-		return
+	// once the session is closed its share memory is unmapped (or about to be): a write through a stream the
+	// application still holds must not touch it (that was a SIGSEGV). Take heap memory; Flush drops the data anyway.
+	if l.stream == nil || !l.stream.session.IsClosed() {
+		buf, err := l.bufferManager.allocShmBuffer(size)
+		if err == nil {
+			l.sliceList.pushBack(buf)
+			return
+		}
+		allocSize := l.bufferManager.allocShmBuffers(l.sliceList, size)
+		remain -= allocSize
 	}
-	allocSize := l.bufferManager.allocShmBuffers(l.sliceList, size)
-	remain -= allocSize
 	// fallback. alloc memory buffer (not shm)
 	if remain > 0 {
 		if remain < defaultSingleBufferSize {
